@@ -931,7 +931,11 @@ func runC13(args []string) error {
 			sm.RefMismatches = append(sm.RefMismatches, refMismatch{ID: cid, Region: x.e.Region, Input: in,
 				Impl: map[string]any{"outcome": obs, "child_exit": eres[i].Exit, "child_stderr": firstLine(eres[i].RealStderr)}, Ref: "Recoverable"})
 		} else if !x.noFix && strings.Contains(eres[i].RealStdout+eres[i].RealStderr, "bye") {
-			sm.RefMismatches = append(sm.RefMismatches, refMismatch{ID: cid, Region: x.e.Region, Input: in,
+			region := x.e.Region
+			if region != "" {
+				region += "-leak" // the exit is a separate (repaired) defect: only the leak is attributed
+			}
+			sm.RefMismatches = append(sm.RefMismatches, refMismatch{ID: cid, Region: region, Input: in,
 				Impl: map[string]any{"outcome": obs, "leak": "message on the host's own stdout/stderr"}, Ref: "nothing on the host's streams"})
 		}
 		if len(sm.Samples) < 2 {
